@@ -298,6 +298,17 @@ func builtBoxes() []Seed {
 			}
 			return u16(uint16(x))
 		}
+		// several entries, each with several sub-samples of distinct values
+		{
+			p := u32(3)
+			for e := 0; e < 3; e++ {
+				p = cat(p, u32(uint32(1+e)), u16(uint16(2+e)))
+				for k := 0; k < 2+e; k++ {
+					p = cat(p, sz(uint32(100*(e+1)+k)), u8(byte(10*e+k), byte(e)), u32(uint32(0x1000*(e+1)+k)))
+				}
+			}
+			add("subs", fmt.Sprintf("v%d,3-entries", v), fb("subs", v, 0, p))
+		}
 		add("subs", fmt.Sprintf("v%d", v), fb("subs", v, 0, u32(2), u32(1), u16(2), sz(100), u8(1, 0), u32(0), sz(0xfff0), u8(255, 1), u32(0xdeadbeef), u32(5), u16(0)))
 	}
 	add("sbgp", "v0", fb("sbgp", 0, 0, []byte("roll"), u32(2), u32(10), u32(1), u32(5), u32(0)))
@@ -497,6 +508,11 @@ func builtBoxes() []Seed {
 		fb("sbgp", 0, 0, []byte("seig"), u32(1), u32(3), u32(0x10001)), fb("sgpd", 1, 0, []byte("seig"), u32(20), u32(1), seig),
 		fb("subs", 0, 0, u32(1), u32(1), u16(1), u16(100), u8(0, 0), u32(0)))
 	add("traf", "encrypted-all-boxes", trafEnc)
+	// the same fragment shape with a senc that carries IVs only (no sub-sample flag), without moov
+	for _, ivLen := range []int{8, 16} {
+		tr := bx("traf", tfhd(0x20000), fb("tfdt", 0, 0, u32(0)), trun(0, 0x201, 3), senc(0, ivLen, 3))
+		add("moof", fmt.Sprintf("senc-ivs-only-%d", ivLen), bx("moof", fb("mfhd", 0, 0, u32(2)), tr))
+	}
 	// senc boxes whose IV size has to be guessed (no saiz, no moov): 16-byte IVs that are zero-padded 8-byte
 	// IVs, so that a first walk with 8-byte IVs reads the padding as subsample_count 0 and only fails on leftover bytes
 	for _, n := range []int{1, 2, 3} {
@@ -534,6 +550,17 @@ func builtBoxes() []Seed {
 	add("uuid", "tfxd-v0", bx("uuid", []byte{0x6d, 0x1d, 0x9b, 0x05, 0x42, 0xd5, 0x44, 0xe6, 0x80, 0xe2, 0x14, 0x1d, 0xaf, 0xf7, 0x57, 0xb2}, u32(0), u32(1000), u32(2000)))
 	add("uuid", "tfxd-v1", bx("uuid", []byte{0x6d, 0x1d, 0x9b, 0x05, 0x42, 0xd5, 0x44, 0xe6, 0x80, 0xe2, 0x14, 0x1d, 0xaf, 0xf7, 0x57, 0xb2}, u32(0x01000000), u64(0x100000000+1000), u64(20000000)))
 	add("uuid", "tfrf-v0", bx("uuid", []byte{0xd4, 0x80, 0x7e, 0xf2, 0xca, 0x39, 0x46, 0x95, 0x8e, 0x54, 0x26, 0xcb, 0x9e, 0x46, 0xa7, 0x9f}, u32(0), u8(2), u32(1000), u32(2000), u32(3000), u32(2000)))
+	for _, n := range []int{0, 3, 254, 255} {
+		tf := []byte{0xd4, 0x80, 0x7e, 0xf2, 0xca, 0x39, 0x46, 0x95, 0x8e, 0x54, 0x26, 0xcb, 0x9e, 0x46, 0xa7, 0x9f}
+		p0 := cat(tf, u32(0), u8(byte(n)))
+		p1 := cat(tf, u32(0x01000000), u8(byte(n)))
+		for i := 0; i < n; i++ {
+			p0 = cat(p0, u32(uint32(1000*(i+1))), u32(1000))
+			p1 = cat(p1, u64(0x100000000+uint64(1000*i)), u64(1000))
+		}
+		add("uuid", fmt.Sprintf("tfrf-v0,%d-entries", n), bx("uuid", p0))
+		add("uuid", fmt.Sprintf("tfrf-v1,%d-entries", n), bx("uuid", p1))
+	}
 	add("uuid", "tfrf-v1", bx("uuid", []byte{0xd4, 0x80, 0x7e, 0xf2, 0xca, 0x39, 0x46, 0x95, 0x8e, 0x54, 0x26, 0xcb, 0x9e, 0x46, 0xa7, 0x9f}, u32(0x01000000), u8(1), u64(0x100000000+1000), u64(20000000)))
 	add("uuid", "unknown", bx("uuid", seq(16, 0x41), []byte("opaque")))
 	add("uuid", "unknown-empty", bx("uuid", seq(16, 0x41)))
